@@ -222,6 +222,10 @@ type recT struct {
 	Ok      bool    `json:"ok"`
 	Defs    []defT  `json:"defs"`
 	Docdefs []defT  `json:"docdefs"`
+	Abs     bool    `json:"abs"`    // the value itself is demanded; otherwise only the relations of the property
+	Rt      bool    `json:"rt"`     // the model reads the text back to the tree (else the vector is unusable)
+	Maxrun  int     `json:"maxrun"` // file: the longest run of backslashes a physical line ends in
+	Sty     M       `json:"sty"`
 }
 
 func str(a []int) string { return string(vh.FromInts(a)) }
@@ -382,6 +386,7 @@ type replayState struct {
 	mismatches []M
 	nmis       int
 	runs       int
+	relRuns    int
 	decided    int
 	perGroup   map[string]int
 	perFunc    map[string]int
@@ -477,7 +482,7 @@ func c10Replay(argv []string) error {
 
 	var doc *env
 	var layouts []*env
-	genNotOk := 0
+	genNotOk, maxRun, runGe2 := 0, 0, 0
 	for _, f := range files {
 		if !f.Ok {
 			genNotOk++
@@ -486,6 +491,12 @@ func c10Replay(argv []string) error {
 		p := filepath.Join(*dir, fmt.Sprintf("layout-%d.funcs", f.Id))
 		if err := os.WriteFile(p, vh.FromInts(f.Bytes), 0o644); err != nil {
 			return err
+		}
+		if !f.Doc && f.Maxrun > maxRun {
+			maxRun = f.Maxrun
+		}
+		if !f.Doc && f.Maxrun >= 2 {
+			runGe2++
 		}
 		if f.Doc {
 			doc = loadEnv("doc", p)
@@ -501,7 +512,24 @@ func c10Replay(argv []string) error {
 	}
 
 	var keep []kept
-	evalVec := func(r *recT, e *env, tpl string, where string, opt bool, reverse bool) {
+	// rel: two evaluations of what the property declares equal (optimised / unoptimised, call / inlined body,
+	// a layout of the funcs file / one definition per line), case by case
+	rel := func(r *recT, class string, whereA, whereB string, tplA, tplB string, a, b []outcome, e *env) {
+		if r.Clock || a == nil || b == nil {
+			return
+		}
+		for i := range a {
+			if a[i].got != b[i].got || (a[i].panic != "") != (b[i].panic != "") {
+				m, ks := r.Cases[i].ctx()
+				st.mismatch(M{"g": r.G, "f": r.F, "class": class, "where": "rel", "template": tplA, "other": tplB, "call": str(r.Tpl), "m": m, "ks": ks,
+					"env": e.name, "step": i, "got": a[i].got, "got_other": b[i].got, "panic": a[i].panic + b[i].panic, "expect_kind": whereA + " = " + whereB,
+					"expect": b[i].got, "style": r.Sty})
+			}
+			st.relRuns++
+		}
+	}
+	evalVec := func(r *recT, e *env, tpl string, where string, opt bool, reverse bool) []outcome {
+		outs := make([]outcome, len(r.Cases))
 		c := e.compile(tpl, opt)
 		if r.Clock && !reverse {
 			keep = append(keep, kept{r, c, where})
@@ -517,8 +545,13 @@ func c10Replay(argv []string) error {
 			wdEnter("eval " + tpl)
 			o := c.eval(mkctx(m, ks))
 			wdLeave()
+			outs[i] = o
 			st.runs++
-			ok, decided := decide(cs.E, c, o)
+			exp := cs.E
+			if !r.Abs && o.panic == "" {
+				exp = expectT{K: "any"}
+			}
+			ok, decided := decide(exp, c, o)
 			if decided {
 				st.decided++
 				st.distinct[tpl+"\x00"+strings.Join(m, "\x01")+"\x00"+fmt.Sprint(ks)] = true
@@ -529,8 +562,15 @@ func c10Replay(argv []string) error {
 					"cerr": c.cerr})
 			}
 		}
+		return outs
 	}
+	canonOut := map[*recT][]outcome{}
+	notRead := 0
 	for _, r := range vecs {
+		if !r.Rt {
+			notRead++
+			continue
+		}
 		e := canon
 		if r.G == "doc" {
 			e = doc
@@ -538,12 +578,17 @@ func c10Replay(argv []string) error {
 		tpl := str(r.Tpl)
 		st.perGroup[r.G]++
 		st.perFunc[r.F]++
-		evalVec(r, e, tpl, "expr", true, false)
-		evalVec(r, e, tpl, "expr", false, false)
-		evalVec(r, e, tpl, "expr", true, true)
+		oo := evalVec(r, e, tpl, "expr", true, false)
+		on := evalVec(r, e, tpl, "expr", false, false)
+		or := evalVec(r, e, tpl, "expr", true, true)
+		canonOut[r] = oo
+		rel(r, "opt-noopt", "optimised", "unoptimised", tpl, tpl, oo, on, e)
+		rel(r, "hist", "first history", "reverse history", tpl, tpl, oo, or, e)
 		if len(r.Sub) > 0 { // the body with the arguments substituted, written inline
-			evalVec(r, e, str(r.Sub), "inline", true, false)
-			evalVec(r, e, str(r.Sub), "inline", false, false)
+			io := evalVec(r, e, str(r.Sub), "inline", true, false)
+			in := evalVec(r, e, str(r.Sub), "inline", false, false)
+			rel(r, "call-inline", "call", "inlined body (optimised)", tpl, str(r.Sub), oo, io, e)
+			rel(r, "call-inline", "call", "inlined body (unoptimised)", tpl, str(r.Sub), oo, in, e)
 		}
 		if len(st.samples) < 3 && len(r.Sub) > 0 && r.G == "d2c" {
 			for ci := range r.Cases {
@@ -560,12 +605,17 @@ func c10Replay(argv []string) error {
 	layoutRuns := 0
 	for _, e := range layouts {
 		for _, r := range vecs {
-			if len(r.Sub) == 0 || r.G != "d1" {
+			if !r.Rt || !r.Udf || !(r.G == "d1" && len(r.Sub) > 0 || r.G == "eu") {
+				continue
+			}
+			if r.G == "eu" && fmt.Sprint(r.Sty["q"]) != "auto" { // one writing style of the call is enough per layout
 				continue
 			}
 			before := st.runs
-			evalVec(r, e, str(r.Tpl), "file", true, false)
-			evalVec(r, e, str(r.Tpl), "file", false, false)
+			fo := evalVec(r, e, str(r.Tpl), "file", true, false)
+			fn := evalVec(r, e, str(r.Tpl), "file", false, false)
+			rel(r, "layout-canon", "this layout", "one definition per line", str(r.Tpl), str(r.Tpl), fo, canonOut[r], e)
+			rel(r, "layout-canon", "this layout (unoptimised call)", "one definition per line", str(r.Tpl), str(r.Tpl), fn, canonOut[r], e)
 			layoutRuns += st.runs - before
 		}
 	}
@@ -601,7 +651,7 @@ func c10Replay(argv []string) error {
 	})
 	vh.WriteJSON(*out, M{"vectors": len(vecs), "runs": st.runs, "decided": st.decided, "distinct_nontrivial": len(st.distinct),
 		"layout_files": len(layouts), "layout_runs": layoutRuns, "clock_runs": clockRuns, "clock_expressions": len(keep), "cli_runs": cliRuns,
-		"gen_not_ok": genNotOk, "per_group": st.perGroup, "per_func": st.perFunc, "mismatches": st.mismatches, "n_mismatches": st.nmis,
+		"gen_not_ok": genNotOk + notRead, "rel_comparisons": st.relRuns, "max_backslash_run": maxRun, "files_with_run_ge2": runGe2, "per_group": st.perGroup, "per_func": st.perFunc, "mismatches": st.mismatches, "n_mismatches": st.nmis,
 		"samples": st.samples})
 	return nil
 }
@@ -668,9 +718,17 @@ func replayCLI(bin, canon string, vecs []*recT, n int, st *replayState) int {
 	}
 	var jobs []job
 	stride := len(vecs)/n + 1
-	for i := 0; i < len(vecs); i += stride {
+	nesc := 0
+	for i := 0; i < len(vecs); i++ {
 		r := vecs[i]
-		if r.G == "doc" {
+		esc := len(r.G) == 2 && r.G[0] == 'e' // the escape groups: every 10th vector besides the stride sample
+		if esc {
+			nesc++
+		}
+		if !(i%stride == 0 || esc && nesc%10 == 0) {
+			continue
+		}
+		if r.G == "doc" || !r.Rt {
 			continue
 		}
 		for ci := range r.Cases {
@@ -692,6 +750,9 @@ func replayCLI(bin, canon string, vecs []*recT, n int, st *replayState) int {
 			defer wg.Done()
 			defer func() { <-sem }()
 			cs := &j.r.Cases[j.ci]
+			if !j.r.Abs {
+				cs = &caseT{M: cs.M, Ks: cs.Ks, E: expectT{K: "any"}}
+			}
 			m, ks := cs.ctx()
 			tpl := str(j.r.Tpl)
 			t0 := time.Now().Unix()
